@@ -34,24 +34,37 @@ def _args_key(arrs):
                  for a in arrs)
 
 
+def _canon(h, args):
+    """helpers with a proved antisymmetry lemma f(a, b) == -f(b, a) are stored with their two arguments in canonical
+    order; returns (args, sign, swapped)"""
+    if getattr(h, "antisym", False) and len(args) == 2:
+        k0 = tuple(S.rf_key(t) for t in args[0])
+        k1 = tuple(S.rf_key(t) for t in args[1])
+        if k1 < k0:
+            return (args[1], args[0]), -1, True
+    return args, 1, False
+
+
 def fun_vec(h, arrs):
-    args = _args_key(arrs)
+    args, sgn, _ = _canon(h, _args_key(arrs))
     n = max(h.out_len, 1)
     out = np.empty(n, dtype=object).view(S.SymArray)
     for k in range(n):
-        out[k] = RF.atom(S.fun_atom(h.name, args, k))
+        out[k] = sgn * RF.atom(S.fun_atom(h.name, args, k))
     return out if h.out_len else out[0]
 
 
 def dfun_mat(h, arrs, pos):
     """matrix [out_len or 1, len(arg pos)] of derivative atoms"""
-    args = _args_key(arrs)
+    args, sgn, swapped = _canon(h, _args_key(arrs))
+    if swapped:
+        pos = 1 - pos
     n = max(h.out_len, 1)
     m = len(args[pos])
     out = np.empty((n, m), dtype=object).view(S.SymArray)
     for k in range(n):
         for j in range(m):
-            out[k, j] = RF.atom(S.dfun_atom(h.name, args, k, pos, j))
+            out[k, j] = sgn * RF.atom(S.dfun_atom(h.name, args, k, pos, j))
     return out
 
 
@@ -140,6 +153,7 @@ def eval_mtx_stubs():
     I3 = np.eye(3)
     hfv = register(Helper("em.finite_vortex", lambda r1, r2: fv(r1, r2), 2, 3,
                           lambda r1, r2: [fv1(r1, r2, I3), fv2(r1, r2, I3)]))
+    hfv.antisym = True           # lemma proved in helper.eval_mtx: f(r1, r2) == -f(r2, r1)
     hsv = register(Helper("em.semi_infinite_vortex", lambda u, r: sv(u, r), 2, 3,
                           lambda u, r: [np.full((3, 3), np.nan), svd(u, r, I3)]))
 
